@@ -299,7 +299,56 @@ def child_main():
     """Entry of the child process: prints the issue collections as JSON."""
     env.bootstrap(quiet=True)
     seed, idxs = int(sys.argv[2]), json.loads(sys.argv[3])
+    if isinstance(idxs, dict):
+        env.say(json.dumps(file_issues(idxs)))
+        return
     env.say(json.dumps(xprocess_issues(seed, idxs)))
+
+
+def file_issues(paths):
+    """Issue collections of the documents in the given files {index: [path, format]} (the other process of the
+    'handed over in a file' monitor)."""
+    import odml
+    from odml.validation import Validation
+    out = {}
+    for i, (path, fmt) in paths.items():
+        with warnings.catch_warnings():
+            warnings.simplefilter("ignore")
+            try:
+                out[str(i)] = [list(x) for x in issues_of(Validation(odml.load(path, fmt, show_warnings=False)))]
+            except Exception as exc:
+                out[str(i)] = "load-raised:%s" % type(exc).__name__
+    return out
+
+
+CONTROL_NAMES = ["na\x0bme", "ty\x00pe", "bell\x07"]
+
+
+def plain_doc_for(seed, i):
+    """A document of the plain kind every format holds without loss (no n-tuples, no hostile text: C01 / C02 judge
+    those), with invalidations; every tenth one has a control character in a name or type (XML cannot hold it: the
+    save has to refuse, and then there is nothing to compare)."""
+    import random
+    rng = random.Random("C19f|%s|%d" % (seed, i))
+    spec = gen.gen_doc(rng, max_nodes=rng.choice([4, 10]), hostile=0.0, tuples=False)
+    with warnings.catch_warnings():
+        warnings.simplefilter("ignore")
+        doc = gen.build_doc(spec)
+        # only invalidations a file can hold (values that do not fit their dtype, emptied names, dependency values
+        # that are numbers and blank-padded names are states a text format does not keep: C01 / C02 / C08 judge
+        # those; documents with errors are refused by save and not judged)
+        c08.apply_muts(doc, [m for m in c08.gen_muts(rng, doc, rng.choice([2, 3, 4]))
+                             if m[0] in ("clear-type", "clear-name", "card")])
+        secs_ = list(doc.itersections())
+        if i % 10 == 0 and secs_:
+            try:
+                if i % 20 == 0:
+                    secs_[-1].name = CONTROL_NAMES[i % 3]
+                else:
+                    secs_[-1].type = CONTROL_NAMES[i % 3]
+            except Exception:
+                pass
+    return doc
 
 
 def run(ctx):
@@ -353,12 +402,63 @@ def run(ctx):
                                       i, len(a), len(b_ or []), next((x for x in a if x not in (b_ or [])), None)),
                                   {"xprocess": i, "hashseed": hs})
         _ = doc_for  # keep
+    # the same document handed to another process in a file: validated there it reports what it reports here
+    from odml.validation import Validation
+    nf = ctx.pick(90, 6000)
+    minef = [i for i in range(nf) if ctx.mine(i)]
+    for b in range(0, len(minef), 30):
+        idxs = minef[b:b + 30]
+        here, paths = {}, {}
+        for i in idxs:
+            with warnings.catch_warnings():
+                warnings.simplefilter("ignore")
+                doc = plain_doc_for(ctx.seed, i)
+                fmt = ["XML", "JSON", "YAML"][i % 3]
+                here[str(i)] = [list(x) for x in issues_of(Validation(doc))]
+                path = os.path.join(sdir, "c19_file_%d_%d.%s" % (os.getpid(), i, fmt.lower()))
+                try:
+                    odml.save(doc, path, fmt)
+                    paths[str(i)] = [path, fmt]
+                    rec.count("handed-over-in-a-file", fmt + ":saved")
+                except Exception as exc:
+                    rec.count("handed-over-in-a-file", "%s:save-refused-%s (not judged)" % (fmt, type(exc).__name__))
+        if not paths:
+            continue
+        try:
+            p = subprocess.run([sys.executable, "-c",
+                                "import sys; sys.path.insert(0, %r); from checks import c19_purity; c19_purity.child_main()" % env.VERIF,
+                                "x", str(ctx.seed), json.dumps(paths)], env=dict(os.environ, PYTHONHASHSEED="4242"),
+                               capture_output=True, text=True, timeout=600, cwd=env.VERIF)
+            there = json.loads(p.stdout.strip().splitlines()[-1])
+        except Exception as exc:
+            rec.inconclusive_because("file hand-over child failed: %r" % (exc,))
+            continue
+        for i in paths:
+            rec.monitor("handed-over-in-a-file")
+            rec.evaluation()
+            a, b_ = here[i], there.get(i)
+            if a != b_:
+                diff = b_ if isinstance(b_, str) else next((x for x in a if x not in (b_ or [])), None) or \
+                    next((x for x in (b_ or []) if x not in a), None)
+                kind_ = diff if isinstance(diff, str) else "issue-%s" % (diff[2] if diff else "?")
+                rec.violation("via-file/issues-differ:%s:%s" % (paths[i][1], kind_),
+                              "doc %s: %d issues here, %s there; first difference %r" % (
+                                  i, len(a), len(b_) if isinstance(b_, list) else b_, diff), {"viafile": int(i)})
+            try:
+                os.remove(paths[i][0])
+            except OSError:
+                pass
 
 
 def replay(case, ctx):
     global _FP
     import odml  # noqa
     _FP = fingerprint()
+    if "viafile" in case:
+        from odml.validation import Validation
+        doc = plain_doc_for(ctx.seed, case["viafile"])
+        env.say(json.dumps([list(x) for x in issues_of(Validation(doc))])[:3000])
+        return
     if "xprocess" in case:
         env.say(json.dumps(xprocess_issues(ctx.seed, [case["xprocess"]]))[:2000])
         return
